@@ -287,6 +287,7 @@ package prover
 
 //@ func (*Proof) MarshalJSON
 //@   property C10 C13 C09
+//@   cover result1 == nil
 //@   let raw = p.Proof.raw
 //@   let coord0 = str.concat("0x", str.hex16(bytes.beIntFrom(raw, 0, 32)))
 //@   let coord1 = str.concat("0x", str.hex16(bytes.beIntFrom(raw, 32, 64)))
@@ -310,6 +311,7 @@ package prover
 //@ func (*Proof) UnmarshalJSON
 //@   property C10
 //@   modifies p.Proof
+//@   cover result == nil
 //@   ensures result == nil ==> (forall i :: 0 <= i && i < 8 ==> str.isNum(json.coord(data, i)))
 //@   let inRange = (forall i :: 0 <= i && i < 8 ==> 0 <= str.num(json.coord(data, i)) && str.num(json.coord(data, i)) < bytes.pow256(32))
 //@   ensures result == nil ==> len(p.Proof.raw) >= 256
